@@ -92,10 +92,13 @@ class Locksets:
                 args = [a for a in f.kids(ini) if f.nodes[a]['k'] != 'CXXDefaultArgExpr'] if f.nodes[ini]['k'] in ('CXXConstructExpr', 'CXXTemporaryObjectExpr') else [ini]
                 if any('defer_lock' in (f.nodes[f.strip(a)].get('t') or '') or 'try_to_lock' in (f.nodes[f.strip(a)].get('t') or '') for a in args):
                     continue          # not (necessarily) locked by construction
+                shared = (vd.get('t') or '').replace('const ', '').startswith('std::shared_lock<')
                 for a in args:
                     at_ = f.nodes[f.strip(a)].get('t') or ''
                     if 'mutex' in at_:
-                        out.append(self.lock_id(f, a))
+                        # a std::shared_lock holds the mutex in shared mode: it excludes writers only, so it protects reads
+                        # but not writes (see accesses())
+                        out.append(self.lock_id(f, a) + ('#shared' if shared else ''))
         return out
 
     def _still_locked(self, f, guard_decl, at):
@@ -312,7 +315,9 @@ class Locksets:
                 cls = path[0].rsplit('::', 1)[0]
                 if not (cls + '::').startswith(self.shared):
                     continue
-                out.append(('.'.join([short(path[0])] + [p.rsplit('::', 1)[-1] for p in path[1:]]), path, w, f, i, base | self.held_at(f, i)))
+                held = base | self.held_at(f, i)
+                eff = frozenset(x for x in held if not x.endswith('#shared')) | (frozenset(x[:-7] for x in held if x.endswith('#shared')) if not w else frozenset())
+                out.append(('.'.join([short(path[0])] + [p.rsplit('::', 1)[-1] for p in path[1:]]), path, w, f, i, eff))
         return out
 
 
